@@ -122,6 +122,34 @@ fn case(rep: &mut Report, seed: u64, index: u64) {
                 w.into_inner().map(|x| x.0).map_err(|e| e.to_string())
             })),
         ];
+        // a to_writer call that fails half-way (sink refuses after k bytes) must report it, and leave nothing behind
+        if !bytes.is_empty() {
+            struct FailAfter(usize);
+            impl std::io::Write for FailAfter {
+                fn write(&mut self, b: &[u8]) -> std::io::Result<usize> {
+                    if self.0 == 0 {
+                        return Err(std::io::Error::new(std::io::ErrorKind::Other, "sink full"));
+                    }
+                    let n = b.len().min(self.0);
+                    self.0 -= n;
+                    Ok(n)
+                }
+                fn flush(&mut self) -> std::io::Result<()> {
+                    Ok(())
+                }
+            }
+            let k = (index as usize * 31) % bytes.len();
+            rep.count("fault.to_writer-sink-fails");
+            match catch(|| a.to_writer(FailAfter(k)).is_err()) {
+                Ok(true) => {}
+                Ok(false) => rep.violation("C14:sink-error-swallowed", &format!("the sink refused everything after {} of {} bytes and to_writer reported success", k, bytes.len()), replay.clone(), J::Null),
+                Err(p) => rep.violation(&format!("C14:write:{}", panic_sig(&p)), &format!("to_writer panicked on a failing sink: {}", p.msg), replay.clone(), J::Null),
+            }
+            let mut again = vec![];
+            if a.to_writer(&mut again).is_err() || again != bytes {
+                rep.violation("C14:state-left-by-failed-call", "after a to_writer call that failed, the same map encodes to other bytes", replay.clone(), J::Null);
+            }
+        }
         for (kind, o) in outs {
             rep.count(&format!("writer-kinds.{}", kind));
             match o {
